@@ -826,7 +826,7 @@ Proof.
   intros k bufs leak. unfold save_calls, save_atts. cbn [write_fault].
   rewrite write_atts_none.
   cbn [is_fsync_fault is_close_fault is_rename_fault negb andb fst app].
-  rewrite !effects_app, effects_all_ok. cbn [effects app].
+  cbn [effects]. rewrite effects_app, effects_all_ok. cbn [effects app].
   rewrite <- app_assoc. reflexivity.
 Qed.
 
@@ -856,8 +856,9 @@ Proof.
     eapply stop_prefix_calls_on; [apply stop_prefix_firstn | exact P].
   - rewrite firstn_all2 by (rewrite app_length; cbn [length]; lia).
     unfold load. rewrite run_app, run_single. cbn [apply]. unfold pre.
-    rewrite (run_spool_complete (spool_name k) bufs [Close (spool_name k)] d) by (right; reflexivity).
-    rewrite lookup_bind, name_eqb_refl. reflexivity.
+    pose proof (run_spool_complete (spool_name k) bufs [Close (spool_name k)] d
+                  (or_intror eq_refl)) as R.
+    cbn [app] in R. rewrite R, lookup_bind, name_eqb_refl. reflexivity.
 Qed.
 
 Lemma cut_bytes_writes_on : forall sp bufs rest lim,
@@ -880,4 +881,63 @@ Proof.
   unfold load. rewrite (run_frame (only (spool_name k))); [reflexivity| |apply only_spool_not_key].
   constructor; [intros n [<-|[]]; reflexivity|].
   rewrite <- app_assoc. apply cut_bytes_writes_on, H.
+Qed.
+
+(* ------------------------------------------------------------------ *)
+(* the two modifying operations under one name                         *)
+
+Inductive store_op :=
+| OpSave (k : N) (bufs : list (list N)) (f : fault) (leak : bool)
+| OpDelete (k : N).
+
+Definition op_key (o : store_op) : N :=
+  match o with OpSave k _ _ _ => k | OpDelete k => k end.
+Definition op_calls (o : store_op) : list syscall :=
+  match o with OpSave k bufs f leak => save_calls k bufs f leak | OpDelete k => delete_calls k end.
+(* what the key holds once the operation is through *)
+Definition op_new (o : store_op) : option (list N) :=
+  match o with OpSave _ bufs _ _ => Some (concat bufs) | OpDelete _ => None end.
+
+Lemma op_calls_on : forall o, calls_on (key_names (op_key o)) (op_calls o).
+Proof. intros [k bufs f leak|k]; [apply save_calls_on | apply delete_calls_on]. Qed.
+
+(* every stop point: the complete previous state of the key, or the complete new one *)
+Theorem op_atomic : forall o d p,
+  stop_prefix p (op_calls o) ->
+  load (op_key o) (run d p) = load (op_key o) d \/ load (op_key o) (run d p) = op_new o.
+Proof.
+  intros [k bufs f leak|k] d p H; cbn [op_key op_calls op_new] in *.
+  - eapply save_atomic_lemma, H.
+  - apply delete_stop_lemma, H.
+Qed.
+
+(* two operations on different keys, any interleaving of their calls, any stop point in
+   it: each key is in its complete previous or complete new state *)
+Theorem concurrent_atomic : forall o1 o2 m p d,
+  op_key o1 <> op_key o2 -> merge (op_calls o1) (op_calls o2) m -> stop_prefix p m ->
+  (load (op_key o1) (run d p) = load (op_key o1) d \/ load (op_key o1) (run d p) = op_new o1) /\
+  (load (op_key o2) (run d p) = load (op_key o2) d \/ load (op_key o2) (run d p) = op_new o2).
+Proof.
+  intros o1 o2 m p d D M Hp.
+  destruct (interleave_stop_projection _ _ _ _ _ _ d D (op_calls_on o1) (op_calls_on o2) M Hp)
+    as [p1 [p2 [A [B [E1 E2]]]]].
+  assert (load (op_key o1) (run d p) = load (op_key o1) (run d p1)) as L1.
+  { unfold load. rewrite (E1 (key_name (op_key o1)) (or_introl eq_refl)). reflexivity. }
+  assert (load (op_key o2) (run d p) = load (op_key o2) (run d p2)) as L2.
+  { unfold load. rewrite (E2 (key_name (op_key o2)) (or_introl eq_refl)). reflexivity. }
+  rewrite L1, L2.
+  split; [apply (op_atomic o1 d p1 A) | apply (op_atomic o2 d p2 B)].
+Qed.
+
+(* a Save that returned nil on a key below 2^17: List reports it and Load returns the value *)
+Theorem saved_is_listed : forall d k bufs f leak,
+  k < key_limit -> save_ok k bufs f leak = true ->
+  In k (list_keys (run d (save_calls k bufs f leak))) /\
+  load k (run d (save_calls k bufs f leak)) = Some (concat bufs).
+Proof.
+  intros d k bufs f leak L E.
+  destruct (flush_before_visible_lemma k bufs f leak E) as [a [b [_ [_ [_ F]]]]].
+  split.
+  - eapply in_list_keys; [apply lookup_in, F | apply parse_key_name_small, L].
+  - unfold load. rewrite F. reflexivity.
 Qed.
